@@ -368,6 +368,7 @@ func merge(all []*Report) *merged {
 				m.Samples = append(m.Samples, s)
 			}
 		}
+		m.Polluted = m.Polluted || r.Polluted
 		m.Capped = append(m.Capped, r.Capped...)
 		m.Broken = append(m.Broken, r.Broken...)
 		for sig, g := range r.Fails {
@@ -538,6 +539,12 @@ func parent(chk *Check, tier string) int {
 		}
 		cw.Wait()
 		for i := 0; i < confirmN; i++ {
+			if ok[i] < 5 && m.Polluted && m.Fails[newSigs[i]].Class != "state-mutated" {
+				// a value was mutated earlier in that worker (reported separately as a
+				// violation); failures downstream of the mutation need not reproduce alone
+				fmt.Printf("note: %q did not reproduce in isolation (%d/5); it followed a detected mutation of a shared value\n", newSigs[i], ok[i])
+				continue
+			}
 			if ok[i] < 5 {
 				broken = append(broken, fmt.Sprintf("signature %q reproduced only %d/5 times (case %d of shard %d): nondeterministic harness, no verdict", newSigs[i], ok[i], m.Fails[newSigs[i]].FirstIdx, m.Fails[newSigs[i]].Shard))
 			}
